@@ -322,3 +322,26 @@ Fixpoint run_trace_from (d : disc) (k : nat) (g : graph) (sched : list tid) (st 
   end.
 
 Definition run_trace d k g calls sched := run_trace_from d k g sched (init calls).
+
+(* ---- vocabulary of the statements about schedules ------------------------------------ *)
+(* a thread at the entry of Schema, or queued on the lock: not inside the critical section *)
+Definition outside (p : pc) : Prop := p = PEnter \/ p = PWait.
+
+(* thread t has a call to make and is not queued on the lock *)
+Definition can_step (st : state) (t : tid) : Prop :=
+  exists th n rest, nth_error (s_thr st) t = Some th /\ t_calls th = n :: rest /\ t_pc th <> PWait.
+
+(* a round schedules every thread at least once *)
+Definition covers (nt : nat) (round : list tid) : Prop := forall t, t < nt -> In t round.
+
+(* the cost of registering a type: one step to insert it, two per reference, two to link/return *)
+Definition node_cost (g : graph) (n : name) : nat := 2 * length (refs g n) + 3.
+
+(* every name the machine can ever register *)
+Definition gnames (g : graph) : list name := flat_map (fun e => fst e :: snd e) g.
+Definition universe (g : graph) (calls : list (list name)) : list name :=
+  nodup N.eq_dec (concat calls ++ gnames g).
+
+(* the number of fair rounds that suffices: every type of the universe registered once, three steps per call *)
+Definition fuel_bound (g : graph) (calls : list (list name)) : nat :=
+  list_sum (map (node_cost g) (universe g calls)) + 3 * length (concat calls).
